@@ -485,7 +485,7 @@ package objects
 //@   props C09
 //@   mode nopanic=off
 //@   holds inv_resv(node) && inv_exclusive(node)
-//@   requires inv_resvkeys(sa)
+//@   holds inv_resvkeys(sa)
 //@   assigns sa.reservations[*], node.reservations[*]
 //@   ensures inv_resvkeys(sa)
 //@   ensures[both] err == nil ==> sa.reservations[ask.allocationKey] != nil && sa.reservations[ask.allocationKey].nodeID == node.NodeID && sa.reservations[ask.allocationKey].node == node && sa.reservations[ask.allocationKey].alloc == ask && node.reservations[ask.allocationKey] != nil && node.reservations[ask.allocationKey].alloc == ask
@@ -498,7 +498,7 @@ package objects
 //@   props C09
 //@   mode nopanic=off
 //@   holds reserve != nil ==> inv_resv(reserve.node) && inv_exclusive(reserve.node)
-//@   requires inv_resvkeys(sa)
+//@   holds inv_resvkeys(sa)
 //@   assigns sa.reservations[*], reserve.node.reservations[*]
 //@   ensures inv_resvkeys(sa)
 //@   ensures[count] n == ((reserve != nil && old(reserve.allocKey in sa.reservations)) ? 1 : 0)
